@@ -14,6 +14,8 @@ def codec_nontrivial(tok, res):
         return "t>" in res
     if tok[0] in ("prd", "pinto"):   # a decode in a process in which services were constructed with a configuration profile
         return True
+    if tok[0] == "fwd":             # at least one datagram came through a forwarder
+        return "/" in res.split(" I", 1)[-1]
     return tok[0] in ("first", "later", "gold", "sess", "nh", "batch", "pfirst", "psess", "pcli")
 
 
@@ -22,6 +24,15 @@ def codec_class(r):
     if len(w) >= 7 and w[0][:1] == "t" and w[0][1:].isdigit() and w[1].startswith("B"):   # batch: items, all retained values unchanged?
         return "batch:%s:%s" % ("udp" if w[3].startswith("Vp") else "msg",
                                  "kept" if all(x == "L=" for x in w[5::7]) else "changed")
+    if w[0].startswith("Vp") and len(w) % 2 == 0:   # fwd: per packet the address family / zone that went in and whether it came out
+        def fam(v):
+            a = v.split("/")[-1]
+            if a == "n":
+                return "nil"
+            ip, _, zone = a.split(".")
+            return {0: "noip", 8: "v4", 32: "v6"}.get(len(ip), "ip?") + ("%z" if zone else "")
+        return "fwd:" + ",".join(sorted({fam(v) + ("=" if i[1:] == v[1:] or i[1:].split("/")[1:] == v[1:].split("/")[1:] else
+                                                   ("-" if i in ("Ilost", "Inobind", "Inosend") else "~")) for v, i in zip(w[0::2], w[1::2])}))
     if r.startswith("P"):            # nh: outcome, eq
         return "nh:" + " ".join(w[2:4])
     if r[:1] in ("r", "f", "c") and (len(w[0]) == 1 or w[0].startswith(("c:", "t>"))):   # lane
@@ -39,7 +50,7 @@ def codec_class(r):
 
 PROP = {
         "level": "proof",
-        "gens": ["MsgSchema", "MsgLimit"],
+        "gens": ["MsgSchema", "MsgLimit", "UdpAddr"],
         "theorems": [
             "Frp.C17.be64_roundtrip", "Frp.C17.be64_surj",
             "Frp.C17.decode_encode", "Frp.C17.decode_encode_res", "Frp.C17.decode_ignores_rest",
@@ -92,8 +103,16 @@ PROP = {
             "Frp.C17.golib_limit_facts", "Frp.C17.codec_object_single", "Frp.C17.frp_no_limit_writer",
             "Frp.C17.proc_limit_constant", "Frp.C17.proc_decode_bounded", "Frp.C17.proc_oversize_refused",
             "Frp.C17.proc_oversize_frame_refused", "Frp.C17.proc_roundtrip",
+            # the ADDRESSES of a udp message as the udp paths build it (Model/UdpPacket, Props/C17Udp, Props/C17UdpFacts; net.UDPAddr's field
+            # list, the constructor and its callers regenerated: Gen/UdpAddr)
+            "Frp.C17.addr_fields_eq_source", "Frp.C17.addr_members_cover", "Frp.C17.addr_members_eq_obj",
+            "Frp.C17.addr_no_custom_codec", "Frp.C17.ip_shape", "Frp.C17.ctor_shape", "Frp.C17.ctor_callers",
+            "Frp.C17.packet_wire", "Frp.C17.packet_fields_preserved", "Frp.C17.zone_preserved",
+            "Frp.C17.packet_content_roundtrip", "Frp.C17.wire_norm_fixed",
+            "Frp.C17.user_packet_wire", "Frp.C17.fwd_reply_wire", "Frp.C17.fwd_end_to_end",
+            "Frp.C17.addrKept_sound", "Frp.C17.model_addrKept", "Frp.C17.udpObsHolds_sound",
         ],
-        "extra_targets": ["Frp.Props.C17Dispatch", "Frp.Props.C17Lane", "Frp.Props.C17Batch", "Frp.Props.C17Limit"],
+        "extra_targets": ["Frp.Props.C17Dispatch", "Frp.Props.C17Lane", "Frp.Props.C17Batch", "Frp.Props.C17Limit", "Frp.Props.C17Udp", "Frp.Props.C17UdpFacts"],
         "engines": [
             {"name": "codec", "quick_n": 20000, "thorough_n": 80000, "thorough_seeds": 5, "search_n": 6000, "search_seeds": 3,
              "nontrivial": codec_nontrivial, "result_class": codec_class},
@@ -120,8 +139,10 @@ PROP = {
                 "predicted from the bytes the data decrypts to (standard-library AES-CFB, trusted) and the round trip "
                 "demanded for the right key; lane = the real transport.MessageTransporter under generated histories of "
                 "Do / Dispatch / cancel (which Do call received which message); batch = the lossless clause as a statement "
-                "about values that PERSIST: k generated values (udp: payloads of 0…7400 bytes with nil / IPv4 / IPv6 "
-                "addresses) are encoded by the real encoder and decoded through one decode entry point — msg.ReadMsg and "
+                "about values that PERSIST: k generated values (udp: payloads of 0…7400 bytes, local and remote address from "
+                "the class nil / zero value / empty IP with port or zone / IPv4 in 4- and 16-byte form / IPv4-in-IPv6 / "
+                "IPv6 of every scope, ports incl. 0 and 65535, zones none / interface names / numeric / odd characters / "
+                "long) are encoded by the real encoder and decoded through one decode entry point — msg.ReadMsg and "
                 "msg.ReadMsgInto (k calls on ONE reader holding the frames back to back), a msg.Dispatcher over a pipe, "
                 "nathole EncodeMessage→DecodeMessageInto, udp.NewUDPPacket→WriteMsg→ReadMsg→udp.GetContent — on one "
                 "goroutine or on 2/4/8 goroutines with a reader each; every result is RETAINED as returned and dumped at "
@@ -133,7 +154,15 @@ PROP = {
                 "NewProxy (one NewProxyResp each), CloseProxy, NatHoleReport and unhandled types. "
                 "batch udp queues its packets as a socket loop does: every payload is read into ONE receive buffer, "
                 "given to udp.NewUDPPacket as a slice of it, and the buffer is overwritten before any queued packet is "
-                "written (the packet must hold what was received). The bound as a property of the PROCESS in every "
+                "written (the packet must hold what was received); V / I / L of a udp item carry the two addresses with every "
+                "field of net.UDPAddr raw (IP bytes, Port, Zone) — V as handed to udp.NewUDPPacket, I / L as in the packet "
+                "the peer decoded — and the driver compares them field by field (udpObsHolds; IPv4 4-byte = 16-byte form "
+                "is the only identification). fwd = the two callers of the constructor on real sockets: cli = the real "
+                "udp.Forwarder in front of a local echo service, fed packets that the real codec decoded, every reply "
+                "read through the real codec again (the answer must carry the remote address of the inbound packet); "
+                "srv = the real udp.ForwardUserConn on a wildcard / udp4 / udp6 socket, datagrams sent from sockets bound "
+                "to 127.a.b.c, ::1 and every IPv6 address of the host (a link-local one with its zone, so ReadFromUDP "
+                "yields a zoned address), every packet of sendCh read through the real codec. The bound as a property of the PROCESS in every "
                 "configuration: pfirst / psess = first / sess against live frps children started with a configuration "
                 "profile (udpPacketSize 1500 / 8000 / 65507 and generated combinations of udpPacketSize 1…2^20 with "
                 "maxPoolCount, maxPortsPerClient, heartbeatTimeout, userConnTimeout), prd / pinto = rd / into executed in "
@@ -164,6 +193,15 @@ PROP = {
             "unsafe pointer arithmetic without naming it is outside what the facts see (the p* ops of the engine would)",
             "model Frp/Model/CodecProc.lean (golib MsgCtl: maxMsgLength and its writers) written by hand; tied by "
             "golib_limit_facts (regenerated) and the p* ops",
+            "translator generator UdpAddr (go/ast over GOROOT/src/net/{udpsock,ip}.go and every .go file of package net for "
+            "the methods of UDPAddr, pkg/proto/udp/udp.go, every non-test .go file of the repository for calls of "
+            "NewUDPPacket / literals of msg.UDPPacket): syntactic facts (field list, source text of the constructor's "
+            "literal and of its callers' arguments)",
+            "model Frp/Model/UdpPacket.lean (net.UDPAddr with all its fields, NewUDPPacket / GetContent, the two forwarders' "
+            "use of the constructor) written by hand; tied by addr_fields_eq_source / ctor_shape / ctor_callers "
+            "(regenerated) and the batch udp / fwd ops. The text of an IP (Model/IPText.lean) enters the theorems as the "
+            "explicit per-address hypothesis ipLaw (text read back = 16-byte form), evaluated by the driver on every "
+            "generated address",
         ],
         "assumptions": [
             "nat-hole codec: AES-128-CFB (golib crypto.Encode/Decode) is trusted and carries no authentication: a "
@@ -179,6 +217,12 @@ PROP = {
             "as many calls as encoding/json itself accepts frames — that estimate only bounds the wait); sess: the "
             "well-formed part consists of Ping, NewProxy (exactly one NewProxyResp is claimed, not its content), "
             "CloseProxy, NatHoleReport and types the server has no handler for; NatHoleVisitor / NatHoleClient are skipped",
+            "udp addresses: IPs have 0, 4 or 16 bytes and obey the IP text law (ipLaw; every generated address does, the "
+            "driver checks), zones are valid UTF-8 (any characters, any length that keeps the body within the bound); "
+            "equality is field by field with IPv4 4-byte = 16-byte form as the only identification (a nil IP and an "
+            "empty non-nil IP are the same 0 bytes); fwd: udp may drop — an item whose datagram did not come through "
+            "within 2 s is not claimed; srv uses the addresses the host owns (zoned ones only where an interface has a "
+            "link-local address that can be bound)",
             "batch: persistence is claimed for values the caller retains WITHOUT copying, compared by reflection dump "
             "(messages) / bytes (udp content); bodies above the bound are drawn again (rt covers them); goroutine "
             "schedules are whatever the Go scheduler does in the run (the theorem covers all schedules, the run samples them)",
@@ -198,12 +242,12 @@ PROP = {
     }
 
 META = {
-        "engine": "lean+translate(MsgSchema,MsgLimit)+harness(codec)",
+        "engine": "lean+translate(MsgSchema,MsgLimit,UdpAddr)+harness(codec)",
         "design_ref": "DESIGN.md §6 C17",
         "technique": "Lean 4 proofs about the framing model and the dispatcher transition system for all byte strings / streams (exact characterisation of accepted "
                      "inputs, bounds, error cases), kernel evaluation of the message table regenerated from "
                      "pkg/msg/msg.go against a pinned golden table, go/ast facts about every writer of the decoder's limit in the "
-                     "whole repository, differential correspondence with the real "
+                     "whole repository and about net.UDPAddr's fields, the udp packet constructor and its callers, differential correspondence with the real "
                      "msg.WriteMsg/ReadMsg/ReadMsgInto, the real msg.Dispatcher over a pipe, live frps / frpc processes "
                      "started with non-default configurations",
         "text": "Proof: the modelled decoder returns ok(t, body, rest) exactly when the input is type byte t (registered) "
@@ -236,6 +280,15 @@ META = {
                 "services constructed with any configuration - the limit is 10240 (proc_limit_constant) and every input is "
                 "decoded within it, oversize frames refused with the body supplied or not (proc_decode_bounded, "
                 "proc_oversize_refused, proc_oversize_frame_refused, proc_roundtrip). "
+                "The addresses of a udp message: net.UDPAddr as the model has it carries exactly the fields of the Go "
+                "struct (addr_fields_eq_source, regenerated from GOROOT; addr_members_cover / addr_members_eq_obj: each is "
+                "a member of the JSON object; addr_no_custom_codec, ip_shape), NewUDPPacket stores its arguments as given "
+                "and the two forwarders are its only callers (ctor_shape, ctor_callers); for every payload and every pair "
+                "of addresses - nil, zero, any IP obeying the IP text law, any port, ANY zone string - the peer decodes the "
+                "same content and field by field the same addresses, IPv4 in 16-byte form (packet_wire, "
+                "packet_fields_preserved, zone_preserved, packet_content_roundtrip), relaying changes nothing "
+                "(wire_norm_fixed); what ForwardUserConn packs for user a and what the Forwarder packs for the answer "
+                "arrive addressed to a (user_packet_wire, fwd_reply_wire, fwd_end_to_end). "
                 "The model is tied to the code by thousands of generated values/byte strings/streams per "
                 "run with the Lean predicate evaluated on the implementation's own results.",
         "note": "Finding C17-null-body (fixed by 5c99d8a): a frame whose JSON body is the literal null made ReadMsg "
